@@ -547,8 +547,8 @@ theorem prune_preserves {n : Node} (hI : Inv n) (inv1 : Hash → Option Invoice)
     (d : Disk) (hinv : ∀ h, inv1 h = none ∨ inv1 h = n.invoices h)
     (hpay : ∀ h, pay2 h = none ∨ pay2 h = n.payments h)
     (hkeep : ∀ h, inv1 h ≠ none → pay2 h = n.payments h) (hd : ∀ h, d.invoices h = inv1 h)
-    (v : Velocity.NodeVC) :
-    Inv { n with invoices := inv1, payments := pay2, disk := d, vc := v } := by
+    (v : Velocity.NodeVC) (iss diss : Hash → Option Invoice) :
+    Inv { n with invoices := inv1, payments := pay2, disk := d, vc := v, issued := iss, diskIssued := diss } := by
   refine ⟨?_, ?_, ?_, hd, ?_⟩
   · intro h c hc
     show getIn (pay2 h) c ≤ inL n c h
@@ -611,9 +611,9 @@ theorem heartbeat_preserves {n n' : Node} {now : Nat} (hI : Inv n) (hh : n.heart
           simp [this]
       simp [Node.pay2, Node.pay1, hfw, hprh]
     split
-    · exact prune_preserves hI _ _ _ hinv hpay hkeep (fun _ => rfl) _
+    · exact prune_preserves hI _ _ _ hinv hpay hkeep (fun _ => rfl) _ _ _
     · rename_i hany
-      refine prune_preserves hI _ _ _ hinv hpay hkeep ?_ n.vc
+      refine prune_preserves hI _ _ _ hinv hpay hkeep ?_ n.vc (n.iss1 now) n.diskIssued
       intro h
       rw [hI.disk h]
       have hprh : n.pr now h = false := by
@@ -687,6 +687,17 @@ theorem restoreAll_spec (chans : Nat → ChanSt) (base : Hash → Option Payment
         simp only [this]
         trivial
 
+theorem restoreAll_none (chans : Nat → ChanSt) (base : Hash → Option Payment) (h : Hash) (hb : base h = none)
+    (k : Nat) (hk : ∀ c, c < k → h ∉ keys (chans c).hcur (chans c).ccur (chans c).hcur (chans c).ccur) :
+    restoreAll chans k base h = none := by
+  induction k with
+  | zero => exact hb
+  | succ k ih =>
+    simp only [restoreAll, restoreChan]
+    have := hk k (Nat.lt_succ_self k)
+    simp only [this, if_false]
+    exact ih (fun c hc => hk c (Nat.lt_succ_of_lt hc))
+
 theorem restart_sync (n : Node) (h : Hash) (c : Nat) (hc : c < n.nch) :
     getIn (n.restart.payments h) c = inL n c h ∧ getOut (n.restart.payments h) c = outL n c h := by
   have := restoreAll_spec n.chans
@@ -727,6 +738,16 @@ theorem init_inv (nch : Nat) (pol : Policy) : Inv (Node.init nch pol) := by
   · intro h inv hi; cases hi
   · intro h; rfl
   · intro h hne; exact absurd rfl hne
+
+theorem issue_preserves {n : Node} (hI : Inv n) (h : Hash) (inv : Invoice) : Inv (n.issue h inv).1 := by
+  unfold Node.issue
+  cases n.issued h with
+  | some old => exact hI
+  | none =>
+    simp only
+    split
+    · exact hI.transfer rfl rfl rfl (fun _ _ => ⟨rfl, rfl⟩) (fun _ => ⟨rfl, rfl⟩) rfl (fun _ hk => hk)
+    · exact hI
 
 theorem step_preserves {n n' : Node} {op : Op} {acc : Bool} (hI : Inv n) (hf : FreshApproval n op)
     (hs : n.step op = some (n', acc)) : Inv n' := by
@@ -785,6 +806,16 @@ theorem step_preserves {n n' : Node} {op : Op} {acc : Bool} (hI : Inv n) (hf : F
     simp only [Node.exec] at hs
     cases hs
     exact hI0
+  | issue h inv =>
+    simp only [Node.exec] at hs
+    cases hr : n0.issue h inv with
+    | mk n1 b =>
+      simp only [hr, Option.some.injEq, Prod.mk.injEq] at hs
+      obtain ⟨e1, _⟩ := hs
+      subst e1
+      have := issue_preserves hI0 h inv
+      rw [hr] at this
+      exact this
   | fulfill h =>
     simp only [Node.exec] at hs
     cases hs
